@@ -203,10 +203,10 @@ fn records(rep: &mut Report, lines: &[super::CLine], args: &Args, nworkers: usiz
 
 fn real_ops(a: &archive::Arch, op: &Value) -> Vec<(&'static str, Vec<u8>)> {
     match (op["k"].as_str().unwrap(), op["n"].as_str().unwrap()) {
-        ("find", "A") => vec![("load_object", a.a.name.clone()), ("g_fetch", a.a.name.clone())],
+        ("find", "A") => vec![("load_object", a.a.name.clone()), ("append+load_object", a.a.name.clone()), ("g_fetch", a.a.name.clone())],
         ("find", "B") => vec![("load_state", vec![]), ("g_fetch", b"state".to_vec())],
-        ("find", "C") => vec![("load_object", a.c.name.clone())],
-        ("find", _) => vec![("load_object", a.name_x.clone())],
+        ("find", "C") => vec![("load_object", a.c.name.clone()), ("append+load_object", a.c.name.clone())],
+        ("find", _) => vec![("load_object", a.name_x.clone()), ("append+load_object", a.name_x.clone())],
         ("publish", _) => vec![("publish", a.name_x.clone())],
         ("verify", _) => vec![("verify", vec![]), ("g_verify", vec![])],
         _ => vec![("objects", vec![]), ("g_objects", vec![])],
